@@ -276,26 +276,40 @@ def check_property(pid, tier, seed):
     forms_seen = set()
     harness_panics = []
     try:
-        for d in drivers:
+        # phase A: builds (sequential, cargo serialises anyway); phase B: every shard of every driver is recorded and
+        # then validated by its own single-worker TLC, all through one pool; phase C: results in driver order
+        plan = []
+        for di, d in enumerate(drivers):
             binpath = build_harness(d.get("profile", "debug"), d.get("features"))
             nsh = d.get("shards", {}).get(tier, JOBS)
-            files = [os.path.join(wdir, "%s.%s.%d.ndjson" % (d["driver"], d.get("profile", "debug"), k)) for k in range(nsh)]
+            tagp = d.get("profile", "debug") + ("-s" + d["env"]["HARNESS_SAMPLE"] if d.get("env", {}).get("HARNESS_SAMPLE") else "")
+            files = [os.path.join(wdir, "%s.%s.%d.ndjson" % (d["driver"], tagp, k)) for k in range(nsh)]
             tmo = d.get("timeout", {}).get(tier, 1200)
-            rec_futs = [pool.submit(record_shard, binpath, d["driver"], seed, tier, k, nsh, files[k], tmo, None, d.get("env"))
-                        for k in range(nsh)]
-            stats = [f.result() for f in rec_futs]
+
+            def job(binpath=binpath, d=d, k=0, nsh=nsh, fpath=None, tmo=tmo, di=di):
+                st = record_shard(binpath, d["driver"], seed, tier, k, nsh, fpath, tmo, None, d.get("env"))
+                if st.get("harness_panic") and not os.path.exists(fpath):
+                    open(fpath, "w").close()
+                res = validate_trace(fpath, "%s_%d_%s_%d" % (pid, di, d["driver"], k)) if os.path.getsize(fpath) > 0 else {"bads": [], "events": 0, "states": 0}
+                return st, res
+            futs = [pool.submit(job, k=k, fpath=files[k]) for k in range(nsh)]
+            plan.append((d, nsh, files, futs))
+        for d, nsh, files, futs in plan:
+            pairs = [f.result() for f in futs]
+            stats = [p[0] for p in pairs]
             for st in stats:
                 if st.get("harness_panic"):
                     harness_panics.append(st["harness_panic"])
             dinfo = {"driver": d["driver"], "profile": d.get("profile", "debug"), "shards": nsh,
                      "cases": max([s.get("cases", 0) for s in stats] + [0]), "events": sum(s.get("events", 0) for s in stats),
                      "crashed_shards": sum(1 for s in stats if s["rc"] != 0 or s["timeout"])}
+            if d.get("env"):
+                dinfo["env"] = d["env"]
             for s in stats:
                 for k, v in s["probes"].items():
                     cov["probes"][k] = cov["probes"].get(k, 0) + v
-            val_futs = [pool.submit(validate_trace, files[k], "%s_%s_%d" % (pid, d["driver"], k)) for k in range(nsh)]
-            for k, f in enumerate(val_futs):
-                res = f.result()
+            for k, pr in enumerate(pairs):
+                res = pr[1]
                 cov["traces_validated_against_impl"] += 1
                 cov["events"] += res["events"]
                 cov["states"] += res["states"]
